@@ -9,7 +9,7 @@ CLAIMS = {
  'C09': ("closed-form Fraction recursions of the book vs the exact re-solution of the emitted equations (equality, SIM/SIMEX1) and vs the real series (1e-6, PC; own stop rule, hand-coded SIM)",
          "Held on K observed parameter vectors (on and off the 4-decimal grid), spending and rate paths, zero and non-zero consistent initial stocks: Y, T, YD, C, H/V, B_h, H_h of the bundled builders follow the book recursions.", "3/C09"),
  'C05': ("closure / canonical-name / placeholder scan of the emitted text against the object graph with an independent splitter; placeholder-embedding driver; value equality of emitted and sector-local forms",
-         "Held on K observed models: every left-hand side canonical and unique, every right-hand-side name defined, no placeholder token in any code part, embedded names resolve to the variable they were requested for (sector, same-sector and model-level equations), emitted equations equal their local forms under valuations.", "3/C05"),
+         "Held on K observed models: every left-hand side canonical and unique, every right-hand-side name defined, no placeholder token in any code part, embedded names resolve to the variable they were requested for (sector, same-sector and model-level equations, exogenous definitions, cross rates requested before the build), emitted equations equal their local forms under valuations; models run through main(), the same passes by hand, the GUI step runner, and a second build after further equations were added.", "3/C05"),
  'C08': ("differential execution over random linear extensions of the declaration order (all 720 orders of SIM in the thorough tier), exact comparison of the re-solved systems",
          "Held on K observed builds: permuted declaration orders give the same variable set and the same exact solution; a permuted build that fails is a violation. Country order is fixed (documented dependence).", "3/C08"),
  'C18': ("structural-name-map differential: renamed vs default codes, stand-alone vs embedded economies and book builders, exact comparison of the re-solved systems",
@@ -23,17 +23,17 @@ CLAIMS = {
  'C20': ("execute the module written by the real generator; residual monitor on its series, differential vs the in-process solver, header check",
          "Held on K observed blocks: the generated file imports and runs, its series satisfy the block equations (lags from its own k-1, exogenous as supplied) within tolerance, agree with the in-process solver started from the same k=0 values, and its table lists t first and each non-lagged variable once.", "3/C20"),
  'C15': ("one-further-step monitor after accepted steady states (real SolveStep on a deep copy, exogenous frozen), snapshot equality of solver inputs",
-         "Held on K observed searches over stable/unit/unstable/oscillating linear lag systems with positive, negative and sign-changing fixed points: an accepted state moves by <= 3 tolerances in one further real step (also through the public SolveEquation path); one listed open finding (D15: a tiny non-decaying oscillation sampled at a turning point); failures raise only NoEquilibriumError/ValueError; parser lists, exogenous series and horizon unchanged.", "3/C15"),
+         "Held on K observed searches over stable/unit/unstable/oscillating linear lag systems with positive, negative and sign-changing fixed points: an accepted state moves by <= 3 tolerances in one further real step (also through the public SolveEquation path); two listed open findings (D15: a tiny non-decaying oscillation sampled at a turning point; D17: inner loops solved only to the acceptance tolerance during the search); also for re-used solver objects and with other solvers' exclusion lists edited; failures raise only NoEquilibriumError/ValueError; parser lists, exogenous series and horizon unchanged.", "3/C15"),
  'C17': ("fresh-subprocess vs long-history bitwise differential with logging/tracing/re-solve settings; re-parse key-set check",
          "Held on K observed histories: series of a target computed after drawn in-process histories (other builds, failures, unfinished builds, interleaved construction, registered logs, tracing, re-solves) are bitwise equal to a fresh interpreter's; a re-parsed solver reports exactly the new block.", "3/C17"),
  'C11': ("sweep counting by an instrumented user function, state-after-failure comparison with a cut reference run, contraction=>success, exhaustive reserved-name enumeration, ill-formed declarations",
          "Held on K observed executions: hostile systems switched on at a drawn period fail loudly within cap+1 sweeps leaving earlier periods intact; contractions (factor <= 0.8) solve within the default cap; all reserved names and ill-formed declarations are rejected before any series exists (name list enumerated completely).", "3/C11"),
  'C03': ("differential execution reduction on/off on the same text: key sets and every value for k>=0 (1e-12 acyclic, 1e-8 cyclic)",
-         "Held on K observed pairs: systems with alias chains, aliases of every variable class, derived trees and initial conditions give the same series with and without reduction. Pairs where either run fails to converge are inconclusive.", "3/C03"),
+         "Held on K observed pairs: systems with alias chains, aliases of every variable class, derived trees and initial conditions give the same series with and without reduction, also with a traced step, the initial steady-state search (to a multiple of its tolerance), registered user functions and re-used solver objects. Pairs where either run fails to converge are inconclusive.", "3/C03"),
  'C10': ("by-construction expectations on lengths, exogenous values, initial conditions, lags, time axis; rejection cases; model-level SIM builds",
          "Held on K observed solves: horizon+1 points, verbatim exogenous for list/tuple/expression/scalar, stated k=0 values, lag identity, time axis; invalid exogenous/initial values rejected.", "3/C10"),
  'C06': ("shadow-ledger reference model replayed against recorded AddCashFlow histories, exact valuations; in-situ AddCashFlow wrapper",
-         "Held on K observed histories: after every registration F, INC and each flow definition of the real Sector equal a 30-line shadow ledger under exact valuations; exclusions of other sectors must not leak.", "3/C06"),
+         "Held on K observed histories: after every registration F, INC and each flow definition of the real Sector equal a 30-line shadow ledger under exact valuations; exclusions of other sectors must not leak; model-level RegisterCashFlow histories (repeats, other income flags) accumulate in both ledgers.", "3/C06"),
  'C14': ("by-construction reference classifier vs EquationParser lists, hostile-comment differential, description differential at model level",
          "Held on K observed blocks: every generated line lands in its by-construction class with an equal-valued right-hand side, identically with hostile trailing comments; malformed lines are reported; hostile descriptions leave equations and series of book models unchanged.", "3/C14"),
  'C16': ("snapshot-before/after monitors on readers under caller-side mutation and repeated rendering; in-situ wrappers during book-model reads",
@@ -43,7 +43,7 @@ CLAIMS = {
  'C02': ("post-solve residual monitor with scheme-agnostic bound, finiteness, pinned lags/exogenous, exact derived-only values; hostile overflow / inf-nan / failpoint systems",
          "Held on K observed solves: every normal return of the real solver is judged equation by equation against the submitted text by an independent evaluator; hostile systems must fail loudly or be finite and consistent. First-order bound for non-linear systems.", "3/C02"),
  'C12': ("value-preservation post-condition on AddTerm histories and create_equation_from_terms (exact valuations); in-situ AddTerm wrapper",
-         "Held on K observed histories: after every AddTerm the rendered RHS compiles and equals lead + signed sum under exact valuations; term lists keep their sum and the caller's list. Leads with a top-level operator weaker than '+' are outside the generated class.", "3/C12"),
+         "Held on K observed histories: after every AddTerm the rendered RHS compiles and equals lead + signed sum under exact valuations; term lists keep their sum and the caller's list; the same through the Sector API with the leading expression replaced mid-history. Leads with a top-level operator weaker than '+' are outside the generated class.", "3/C12"),
  'C13': ("by-construction token lists + token-stream hygiene + value preservation under non-merging maps; in-situ wrappers on the three token functions",
          "Held on K observed executions: random expressions x renaming maps (swap/cycle/chain/overlap) with expected token streams known from the generator, plus every call the book builders make, judged by wrappers. Says nothing about expression classes not generated.", "3/C13"),
 }
